@@ -37,6 +37,11 @@ def first_diff(a, b):
             # not compared; the copier is still exercised through bitbuf_write_bits / bitbuf_read_bits by every other token
             if re.sub(r"cp:[0-9a-f]{16}", "cp:unavailable", y) == x:
                 continue
+        if x != y and x[:2] in ("A ", "F ", "R ") and x[:2] == y[:2]:
+            # allocator events name blocks by size; where sizes of several kinds coincide the harness names every candidate
+            cand = set(canon(x[:2] + k).split()[1] for k in x[2:].strip().split("|"))
+            if canon(y).split()[1:2] and canon(y).split()[1] in cand:
+                continue
         if x != y:
             # find the op this line belongs to
             op = None
